@@ -105,7 +105,8 @@ def run(chk, orch):
         wls = []
         fixed = [
             # exact duplicate records in every experiment (process-wide bookkeeping of the duplicate filter)
-            ({"seed": 31, "n_chr": 3, "n_exp": 2, "exp_mode": "same", "paralogs": 1, "novel": 1, "unmapped": 3, "dup_records": 3}, {}),
+            ({"seed": 31, "n_chr": 3, "n_exp": 2, "exp_mode": "same", "paralogs": 1, "novel": 1, "unmapped": 3, "dup_records": 3,
+              "frag_gene": 1, "genes_per_chr": 4}, {}),
             ({"seed": 32, "n_chr": 3, "n_exp": 3, "exp_mode": "split", "paralogs": 1, "novel": 2, "groups": 3, "unmapped": 2},
              {"read_group": "tag"}),
             ({"seed": 33, "n_chr": 2, "n_exp": 2, "exp_mode": "split", "novel": 2, "novel_cov": 8, "exp_polya": [1, 0],
